@@ -12,11 +12,15 @@
 (* in which values of different types compare Equal.                       *)
 (***************************************************************************)
 EXTENDS Interp, TLC
-CONSTANTS DEVS
+CONSTANTS DEVS, NEAR
 VARIABLES l, r, swapped
 
-MoreAtoms == Atoms \cup {JNum(1, 2), JStr(<<98>>)}
-U == Univ(MoreAtoms, 1, 2)
+(* NEAR = TRUE: the universe of MC_Cmp_near -- neighbouring doubles (1, 1+1ulp, 1+2ulp, 1-1ulp, 3/10+1ulp), an inexact number and two
+   large magnitudes among the atoms *)
+NearAtoms == {JNull, JTrue, JInt(0), JInt(1), JNear(1, 1, 1), JNear(1, 1, 2), JNear(1, 1, -1), JNum(3, 10), JNear(3, 10, 1), JNear(-1, 1, 1),
+              WithU(JInt(1), INEXACT), JBig(1, 19), JBig(11, 18), JBig(-1, 19), JStr(<<97>>)}
+MoreAtoms == IF NEAR THEN NearAtoms ELSE Atoms \cup {JNum(1, 2), JStr(<<98>>)}
+U == Univ(MoreAtoms, 1, IF NEAR THEN 1 ELSE 2)
 Init == l \in U /\ r \in U /\ swapped = FALSE
 Next == ~swapped /\ swapped' = TRUE /\ l' = r /\ r' = l
 Spec == Init /\ [][Next]_<<l, r, swapped>>
@@ -39,4 +43,23 @@ Inv_Contract ==
                  /\ C("ge", l, r) = JBool(C("gt", l, r) = JTrue \/ C("eq", l, r) = JTrue)
                  /\ C("lt", l, r) = C("gt", r, l))
 Inv_L1 == \A op \in OpsAll : L1(op, l, r) = C(op, l, r)
+
+(* the universe with neighbouring doubles.  Level 0: equality is exact, the order is that of the reals (base, then units in the last
+   place), total on numbers.  Level 1 = Level 0 except that '==' / '!=' identify what EqOpen names (DEV_TOLERANT_EQ); where the
+   transcription of float_eq decides (at most one unit apart) neighbours ARE equal for the code; the ordering operators never differ. *)
+Inv_ContractNear ==
+  LET bothNum == l.t = "num" /\ r.t = "num" IN
+  /\ C("eq", l, r) = JBool(l = r) /\ C("eq", l, r) = C("eq", r, l) /\ C("ne", l, r) = JBool(C("eq", l, r) = JFalse)
+  /\ (~bothNum => \A op \in {"lt", "le", "gt", "ge"} : C(op, l, r) = JNull)
+  /\ (bothNum /\ ~NumOrderOpen(l, r) =>
+        /\ Cardinality({op \in {"lt", "eq", "gt"} : C(op, l, r) = JTrue}) = 1          \* exact equality: trichotomy for every pair
+        /\ C("le", l, r) = JBool(C("gt", l, r) = JFalse) /\ C("ge", l, r) = JBool(C("lt", l, r) = JFalse)
+        /\ C("lt", l, r) = C("gt", r, l))
+Inv_L1Near ==
+  /\ \A op \in {"lt", "le", "gt", "ge"} : (l.t = "num" /\ r.t = "num" /\ NumOrderOpen(l, r)) \/ L1(op, l, r) = C(op, l, r)
+  /\ \A op \in {"eq", "ne"} :
+        IF ~EqOpen(l, r) THEN L1(op, l, r) = C(op, l, r)
+        ELSE DeepEqOpenL1(l, r) \/ HasInexact(l) \/ HasInexact(r) \/ L1(op, l, r) = JBool(op = "eq")   \* the tolerance: neighbours are equal
+(* the tolerance is not vacuous: some pair differs for Level 0 and is equal for the code *)
+Inv_NoTolerantPair == ~(l # r /\ L1("eq", l, r) = JTrue)
 =============================================================================
